@@ -18,6 +18,32 @@ type resultCase struct {
 	Moves     []string `json:"moves"`
 	ForkAt    int      `json:"fork_at"` // -1: no fork
 	ForkMoves []string `json:"fork_moves,omitempty"`
+	// Query > 0: a spectator asks read-only questions (check, mate, legal moves, ...) about the
+	// current position after every ply i with i % Query == 0. Questions do not change a game.
+	Query int `json:"query,omitempty"`
+}
+
+// spectate asks every read-only question the position and board offer.
+func spectate(b *board.Board) {
+	p, turn := b.Position(), b.Turn()
+	_ = p.IsChecked(turn)
+	_ = p.IsChecked(turn.Opponent())
+	_ = p.IsCheckMate(turn)
+	_ = p.LegalMoves(turn)
+	_ = p.PseudoLegalMoves(turn.Opponent())
+	_, _ = p.EnPassant()
+	_ = p.Castling()
+	_ = p.String()
+	_ = b.Hash()
+	_ = b.Ply()
+	_ = b.FullMoves()
+	_ = b.HasCastled(turn)
+	_ = b.HasMoved(4)
+	_, _ = b.SecondToLastMove()
+	_ = p.HasInsufficientMaterial()
+	_ = p.IsAttacked(turn, p.KingSquare(turn))
+	_, _ = b.LastMove()
+	_ = b.String()
 }
 
 // judgeResult compares what the board reports after a push with the oracle game.
@@ -140,7 +166,7 @@ var checkC05 = def("C05/history", func(c resultCase) error {
 	}
 	var fb *board.Board
 	var fg *oracle.Game
-	pops, forkPly := 0, 0
+	pops, forkPly, queried := 0, 0, 0
 	for i := 0; i <= len(c.Moves); i++ {
 		if i == c.ForkAt {
 			fb, fg = b.Fork(), g.Clone()
@@ -173,6 +199,13 @@ var checkC05 = def("C05/history", func(c resultCase) error {
 		if err := judgeResult(b, g, fmt.Sprintf("after ply %d (%s)", i, c.Moves[i])); err != nil {
 			return err
 		}
+		if c.Query > 0 && i%c.Query == 0 {
+			spectate(b)
+			queried++
+			if err := judgeResult(b, g, fmt.Sprintf("after ply %d (%s) and read-only queries", i, c.Moves[i])); err != nil {
+				return err
+			}
+		}
 	}
 	labels := resultLabels(g, st.Half)
 	if fb != nil {
@@ -200,13 +233,23 @@ var checkC05 = def("C05/history", func(c resultCase) error {
 	if pops > 0 {
 		labels = append(labels, "take-backs-in-game")
 	}
+	if queried > 0 {
+		labels = append(labels, "spectator-queries")
+		for i, fired := range g.Fired {
+			for _, f := range fired {
+				if (f == oracle.RuleRep3 || f == oracle.RuleRep5) && g.States[i].Pos.InCheck(g.States[i].Pos.White) {
+					labels = append(labels, "spectated-repetition-in-check")
+				}
+			}
+		}
+	}
 	nt := false
 	for _, l := range labels {
-		if l != "castle-in-game" && l != "fork:castle-in-game" && l != "take-backs-in-game" {
+		if l != "castle-in-game" && l != "fork:castle-in-game" && l != "take-backs-in-game" && l != "spectator-queries" {
 			nt = true
 		}
 	}
-	stats.Case("C05/history", stats.FP(c.FEN, fmt.Sprint(c.Moves), c.ForkAt, fmt.Sprint(c.ForkMoves)), nt, dedup(labels)...)
+	stats.Case("C05/history", stats.FP(c.FEN, fmt.Sprint(c.Moves), c.ForkAt, fmt.Sprint(c.ForkMoves), c.Query), nt, dedup(labels)...)
 	stats.Note("C05/history", "pushes_judged", int64(len(c.Moves)+len(c.ForkMoves)))
 	return nil
 })
@@ -266,6 +309,9 @@ func genResultCase(t *rapid.T) resultCase {
 			ops = append(ops, m.String())
 		}
 		c.Moves = ops
+	}
+	if rapid.IntRange(0, 2).Draw(t, "spectator") == 0 {
+		c.Query = rapid.IntRange(1, 4).Draw(t, "queryevery")
 	}
 	return c
 }
